@@ -132,7 +132,8 @@ Record ecase := mkcase {
   o_keys : option (list path);                     (* keys of the yielded dict, in order *)
   o_trace : list (Z * path);                       (* (kind, canonical path) of each FS call *)
   o_final : list (path * str);                     (* every regular file afterwards *)
-  o_paths : list (str * (str * str * str * (str * str)))   (* p -> normpath, dirname, str(Path), abspath, glob.escape *)
+  o_paths : list (str * (str * str * str * (str * str)));  (* p -> normpath, dirname, str(Path), abspath, glob.escape *)
+  o_hyps : list bool                               (* [alias_free; kept keys distinct; read keys distinct] computed by the harness *)
 }.
 
 Definition world_of (c : ecase) : world :=
@@ -198,6 +199,30 @@ Definition run_case (c : ecase) : fsys * list op * eres unit * option (list path
      | EErr _ => None
      end).
 
+(* ---- the hypotheses of the C16 theorems, as booleans evaluated on every scenario of a run ----------
+   alias_free: the removed and the kept keys denote pairwise distinct files (needed by C16_completed_calls_exactly
+   and its corollaries); kept_distinct: the kept keys do (enough for C16_rekeyed_entry_survives).
+   [false] also when the block did not complete.  Soundness of nodupb: EditorProofs.nodupb_sound. *)
+Definition case_texts (c : ecase) : list (path * str) :=
+  match entered (world_of c) (fuel_of c) (mkfs (c_files c) (c_dirs c)) (c_root c) with
+  | EOk (t, _) => t | EErr _ => [] end.
+Definition completed_rec (c : ecase) : bool :=
+  (c_mode c =? 1) && (o_res c =? 0) && (match c_body c with Some _ => true | None => false end).
+Definition hyp_alias_free (c : ecase) : bool :=
+  let W := world_of c in
+  completed_rec c &&
+  match c_body c with
+  | Some f' => nodupb (map (canon W) (removed_keys W (case_texts c) (f' : list (path * model W)) ++ keys f'))
+  | None => false
+  end.
+Definition hyp_kept_distinct (c : ecase) : bool :=
+  let W := world_of c in
+  completed_rec c && match c_body c with Some f' => nodupb (map (canon W) (keys f')) | None => false end.
+(* the keys the read phase produced denote pairwise distinct files (the reading of "exactly once" per FILE) *)
+Definition hyp_read_keys_distinct (c : ecase) : bool :=
+  negb (c_mode c =? 1) || nodupb (map (canon (world_of c)) (keys (case_texts c))).
+Definition hyps (c : ecase) : list bool := [hyp_alias_free c; hyp_kept_distinct c; hyp_read_keys_distinct c].
+
 Definition check_case (c : ecase) : bool :=
   let W := world_of c in
   let '(fs', tr, r, ks) := run_case c in
@@ -205,7 +230,8 @@ Definition check_case (c : ecase) : bool :=
   && (res_code r =? o_res c)
   && opt_eqb (list_eqb str_eqb) (if c_mode c =? 0 then o_keys c else ks) (o_keys c)
   && trace_eqb (map (enc_op W) tr) (o_trace c)
-  && files_eqb (fs_files fs') (o_final c) && files_eqb (o_final c) (fs_files fs').
+  && files_eqb (fs_files fs') (o_final c) && files_eqb (o_final c) (fs_files fs')
+  && list_eqb Bool.eqb (hyps c) (o_hyps c).
 
 (* for diagnosis *)
 Definition model_out (c : ecase) :=
@@ -230,7 +256,7 @@ Definition ex_case (translate guard : bool) : ecase :=
          [(zs "a", [zs "a"]); (zs "b", [zs "b"]); (zs "m", [zs "m"])]
          1 (zs "m")
          (Some [(zs "m", zs "Z" ++ (if translate then [NL] else CRLF)); (zs "a", zs "B" ++ [NL]); (zs "n", zs "N" ++ [NL])])
-         0 None [] [] [].
+         0 None [] [] [] [].
 Definition ex_W (t g : bool) : world := world_of (ex_case t g).
 Definition ex_fs : fsys := mkfs (c_files (ex_case false true)) (c_dirs (ex_case false true)).
 Definition ex_root : path := zs "m".
@@ -262,29 +288,6 @@ Definition ex_files3' : list (path * model (ex_W false true)) :=
   match ex_body3 (ex_files false true) with Some x => x | None => [] end.
 Definition ex_out3 := edit_file_recursive (ex_W false true) ex_fuel ex_fs ex_root ex_body3.
 
-(* ---- the hypotheses of the C16 theorems, as booleans evaluated on every scenario of a run ----------
-   alias_free: the removed and the kept keys denote pairwise distinct files (needed by C16_completed_calls_exactly
-   and its corollaries); kept_distinct: the kept keys do (enough for C16_rekeyed_entry_survives).
-   [false] also when the block did not complete.  Soundness of nodupb: EditorProofs.nodupb_sound. *)
-Definition case_texts (c : ecase) : list (path * str) :=
-  match entered (world_of c) (fuel_of c) (mkfs (c_files c) (c_dirs c)) (c_root c) with
-  | EOk (t, _) => t | EErr _ => [] end.
-Definition completed_rec (c : ecase) : bool :=
-  (c_mode c =? 1) && (o_res c =? 0) && (match c_body c with Some _ => true | None => false end).
-Definition hyp_alias_free (c : ecase) : bool :=
-  let W := world_of c in
-  completed_rec c &&
-  match c_body c with
-  | Some f' => nodupb (map (canon W) (removed_keys W (case_texts c) (f' : list (path * model W)) ++ keys f'))
-  | None => false
-  end.
-Definition hyp_kept_distinct (c : ecase) : bool :=
-  let W := world_of c in
-  completed_rec c && match c_body c with Some f' => nodupb (map (canon W) (keys f')) | None => false end.
-(* the keys the read phase produced denote pairwise distinct files (the reading of "exactly once" per FILE) *)
-Definition hyp_read_keys_distinct (c : ecase) : bool :=
-  nodupb (map (canon (world_of c)) (keys (case_texts c))).
-
 (* the same file under two spellings: m includes "a" and "/t/a" *)
 Definition ex_caseA : ecase :=
   mkcase false true true (zs "/t")
@@ -292,6 +295,6 @@ Definition ex_caseA : ecase :=
          [zs "/t"; zs "/"]
          [(zs "A" ++ [NL], [zs "a"; zs "/t/a"])] []
          [(zs "a", [zs "a"]); (zs "/t/a", [zs "/t/a"])]
-         1 (zs "m") None 0 None [] [] [].
+         1 (zs "m") None 0 None [] [] [] [].
 Definition ex_WA : world := world_of ex_caseA.
 Definition ex_bfsA := bfs ex_WA 4 (mkfs (c_files ex_caseA) (c_dirs ex_caseA)) [normpath ex_WA (zs "m")] [] [].
